@@ -173,7 +173,7 @@ def fmt_univ(univ):
 
 def run_all(tier, seed):
     xo = common.import_xobjects()
-    from xobjects.context import sort_classes, topological_sort
+    from xobjects.context import sort_classes, topological_sort, sources_from_classes
 
     r = random.Random(seed * 104729 + 5)
     lines, expect, ctxs = [], [], []
@@ -345,6 +345,26 @@ def run_all(tier, seed):
             tags["same-name"] += 1
         except Exception as e:
             fails.append(common.Failure("oracle", f"C14:sortc-raises:{type(e).__name__}", f"same-name roots {sctx['roots']}: {str(e)[:160]}", sctx))
+    # ---- a class DERIVED from a class whose API has already been generated (`class Triangle(Point[3])`, tests/test_capi.py): its
+    #      own API is emitted under its own name, once, after what it needs
+    for k in range(3 if tier == "quick" else 60):
+        uid = f"{seed}x{k}x{r.randrange(10**6)}"
+        Pt = type(f"SBP{uid}", (xo.Struct,), {"x": xo.Float64, "y": xo.Float64})
+        base = r.choice([Pt[3], Pt[:], Pt])
+        bctx = {"component": "topo", "op": "subclass-after-generation", "base": base.__name__}
+        try:
+            if r.random() < 0.8:
+                sources_from_classes(sort_classes([base]))          # the parent's API is generated first
+            Tri = type(f"SBT{uid}", (base,), {})
+            names = [c.__name__ for c in sort_classes([Tri])]
+            srcs = sources_from_classes(sort_classes([Tri]))
+            text = "\n".join(s_.source if hasattr(s_, "source") else str(s_) for s_ in srcs)
+            if names.count(Tri.__name__) != 1 or Tri.__name__ not in text:
+                fails.append(common.Failure("oracle", "C14:missing-class", f"class {Tri.__name__}({base.__name__}) defined after the API of {base.__name__} was "
+                                            f"generated: sorted {names}; its own API is not in the emitted source", bctx))
+            tags["subclass-after-generation"] += 1
+        except Exception as e:
+            fails.append(common.Failure("oracle", f"C14:sortc-raises:{type(e).__name__}", f"subclass of {base.__name__}: {str(e)[:160]}", bctx))
     got = common.run_driver("topo", lines)
     mism = []
     for l, e, g, ctx in zip(lines, expect, got, ctxs):
